@@ -1,11 +1,706 @@
-//! C01 -- not built yet (stub so the crate layout is stable).
-use crate::engine::report::{Ctx, Report};
-use serde_json::Value;
+//! C01 -- incremental rendering always leaves the terminal showing the drawn surface.
+//!
+//! Explicit-state BFS over renderer histories on the real `TerminalRenderer`: a state is
+//! (renderer back buffer + marks + glyph cache [hook H3], reference screen); a transition draws
+//! one surface and calls `frame`, or performs clear / no-frame / re-creation / lost-frame+clear.
+//! Every command the renderer passes to `Terminal::execute` is applied to the reference screen
+//! (model/screen.rs). After every frame the screen must equal the screen obtained by a fresh
+//! renderer painting the same surface on a blank terminal (differential oracle), and for
+//! surfaces without overlap that screen must equal the direct interpretation of the surface.
+use crate::engine::bfs::{bfs_with, BfsStats};
+use crate::engine::catch;
+use crate::engine::report::{Ctx, Report, Samples, Tier, Violations};
+use crate::engine::util::hash128;
+use crate::model::screen::{img_id, Content, SCell, Screen};
+use serde_json::{json, Value};
+use std::io::Write;
+use std::sync::atomic::{AtomicU64, Ordering};
+use surf_n_term::render::{CellKind, TerminalRenderer};
+use surf_n_term::{
+    Cell, Error, Face, FaceAttrs, Glyph, Image, Position, Size, Surface, SurfaceMut, SurfaceOwned, Terminal,
+    TerminalCaps, TerminalCommand, TerminalEvent, TerminalSize, TerminalWaker, RGBA,
+};
 
-pub fn run(_ctx: &Ctx) -> Result<Report, String> {
-    Err("C01: check not built yet".into())
+// ------------------------------------------------------------------ recording terminal
+
+pub struct RecTerm {
+    size: TerminalSize,
+    pub cmds: Vec<TerminalCommand>,
+    caps: TerminalCaps,
 }
 
-pub fn replay(_w: &Value) -> Result<(bool, String), String> {
-    Err("C01: check not built yet".into())
+impl RecTerm {
+    pub fn new(h: usize, w: usize) -> Self {
+        RecTerm {
+            size: TerminalSize {
+                cells: Size::new(h, w),
+                pixels: Size::new(h * 2, w * 2),
+            },
+            cmds: vec![],
+            caps: TerminalCaps::default(),
+        }
+    }
+}
+
+impl Write for RecTerm {
+    fn write(&mut self, buf: &[u8]) -> std::io::Result<usize> {
+        Ok(buf.len())
+    }
+    fn flush(&mut self) -> std::io::Result<()> {
+        Ok(())
+    }
+}
+
+impl Terminal for RecTerm {
+    fn execute(&mut self, cmd: TerminalCommand) -> Result<(), Error> {
+        self.cmds.push(cmd);
+        Ok(())
+    }
+    fn poll(&mut self, _t: Option<std::time::Duration>) -> Result<Option<TerminalEvent>, Error> {
+        Ok(None)
+    }
+    fn size(&self) -> Result<TerminalSize, Error> {
+        Ok(self.size)
+    }
+    fn position(&mut self) -> Result<Position, Error> {
+        Ok(Position::origin())
+    }
+    fn waker(&self) -> TerminalWaker {
+        TerminalWaker::new(|| Ok(()))
+    }
+    fn frames_pending(&self) -> usize {
+        0
+    }
+    fn frames_drop(&mut self) {}
+    fn dyn_ref(&mut self) -> &mut dyn Terminal {
+        self
+    }
+    fn capabilities(&self) -> &TerminalCaps {
+        &self.caps
+    }
+}
+
+// ------------------------------------------------------------------ alphabet
+
+pub const KIND_NAMES: [&str; 11] = [
+    "blank", "a", "a/red", "blank/red", "blank/underline", "wide", "wide/red", "img1x1", "img1x2", "img1x1'", "glyph1x2",
+];
+
+pub struct Alphabet {
+    cells: Vec<Cell>,
+    /// pointer identity of the alphabet's images
+    ptrs: Vec<(usize, usize)>,
+}
+
+fn red() -> Face {
+    Face::new(None, Some(RGBA::new(255, 0, 0, 255)), FaceAttrs::EMPTY)
+}
+
+fn image(h: usize, w: usize, salt: u8) -> Image {
+    let mut s = SurfaceOwned::new(Size::new(h, w));
+    s.fill_with(|p, _| RGBA::new(10 + salt, (p.row * 16 + p.col) as u8, 200, 255));
+    Image::from(s)
+}
+
+impl Alphabet {
+    pub fn new() -> Self {
+        let i1 = image(2, 2, 0);
+        let i2 = image(2, 4, 1);
+        let i1b = image(2, 2, 0);
+        let glyph = Glyph::new(
+            surf_n_term::rasterize::Path::empty(),
+            Default::default(),
+            None,
+            Size::new(1, 2),
+            "g".to_owned(),
+            None,
+        );
+        let under = Face::new(None, None, FaceAttrs::UNDERLINE);
+        let ptrs = vec![
+            (7, i1.data().as_ptr() as usize),
+            (8, i2.data().as_ptr() as usize),
+            (9, i1b.data().as_ptr() as usize),
+        ];
+        let cells = vec![
+            Cell::default(),
+            Cell::new_char(Face::default(), 'a'),
+            Cell::new_char(red(), 'a'),
+            Cell::new_char(red(), ' '),
+            Cell::new_char(under, ' '),
+            Cell::new_char(Face::default(), '\u{4e16}'),
+            Cell::new_char(red(), '\u{4e16}'),
+            Cell::new_image(i1),
+            Cell::new_image(i2),
+            Cell::new_image(i1b),
+            Cell::new_glyph(red(), glyph),
+        ];
+        Alphabet { cells, ptrs }
+    }
+
+    fn is_wide(kind: usize) -> bool {
+        kind == 5 || kind == 6
+    }
+
+    /// (height, width) in cells of the area an image-like kind covers
+    fn area(kind: usize) -> Option<(usize, usize)> {
+        match kind {
+            7 | 9 => Some((1, 1)),
+            8 | 10 => Some((1, 2)),
+            _ => None,
+        }
+    }
+}
+
+#[derive(Debug, Clone, PartialEq, Eq, Hash)]
+pub struct Grid {
+    pub h: usize,
+    pub w: usize,
+    pub kinds: Vec<usize>,
+}
+
+#[derive(Debug, Clone, PartialEq, Eq, Hash)]
+pub enum Op {
+    /// draw surface (index into the grid's surface list) and render a frame
+    Frame(u32),
+    /// draw surface, then reset it without rendering (TerminalAction::WaitNoFrame)
+    NoFrame(u32),
+    /// renderer.clear(term)
+    Clear,
+    /// renderer.clear(term); renderer = TerminalRenderer::new(term, true)   (resize path)
+    Recreate,
+    /// a frame is computed but its commands never reach the screen, then renderer.clear(term)
+    /// (frames dropped by the terminal queue, terminal.rs frames_drop path)
+    LostThenClear(u32),
+}
+
+/// all surfaces of the grid: one kind per cell, excluding wide characters in the last column
+pub fn surfaces(g: &Grid) -> Vec<Vec<u8>> {
+    let n = g.h * g.w;
+    let k = g.kinds.len();
+    let total = k.pow(n as u32);
+    let mut out = Vec::with_capacity(total);
+    'next: for mut i in 0..total {
+        let mut s = Vec::with_capacity(n);
+        for _ in 0..n {
+            s.push(g.kinds[i % k] as u8);
+            i /= k;
+        }
+        for r in 0..g.h {
+            if Alphabet::is_wide(s[r * g.w + g.w - 1] as usize) {
+                continue 'next;
+            }
+        }
+        out.push(s);
+    }
+    out
+}
+
+fn draw(alpha: &Alphabet, g: &Grid, renderer: &mut TerminalRenderer, surf: &[u8]) {
+    let mut view = renderer.surface();
+    for r in 0..g.h {
+        for c in 0..g.w {
+            let kind = surf[r * g.w + c] as usize;
+            if kind != 0 {
+                view.set(Position::new(r, c), alpha.cells[kind].clone());
+            }
+        }
+    }
+}
+
+/// state of one execution
+pub struct Exec {
+    pub term: RecTerm,
+    pub renderer: TerminalRenderer,
+    pub screen: Screen,
+}
+
+impl Exec {
+    pub fn new(g: &Grid) -> Self {
+        let mut term = RecTerm::new(g.h, g.w);
+        let renderer = TerminalRenderer::new(&mut term, false).expect("renderer");
+        Exec {
+            term,
+            renderer,
+            screen: Screen::new(g.h, g.w),
+        }
+    }
+
+    fn flush_to_screen(&mut self, apply: bool) {
+        for cmd in self.term.cmds.drain(..) {
+            if apply {
+                self.screen.apply(&cmd);
+            }
+        }
+    }
+
+    pub fn apply(&mut self, alpha: &Alphabet, g: &Grid, surfs: &[Vec<u8>], op: &Op) {
+        match op {
+            Op::Frame(s) => {
+                draw(alpha, g, &mut self.renderer, &surfs[*s as usize]);
+                self.renderer.frame(&mut self.term).expect("frame");
+                self.flush_to_screen(true);
+            }
+            Op::NoFrame(s) => {
+                draw(alpha, g, &mut self.renderer, &surfs[*s as usize]);
+                self.renderer.surface().clear();
+            }
+            Op::Clear => {
+                self.renderer.clear(&mut self.term).expect("clear");
+                self.flush_to_screen(true);
+            }
+            Op::Recreate => {
+                self.renderer.clear(&mut self.term).expect("clear");
+                self.flush_to_screen(true);
+                self.renderer = TerminalRenderer::new(&mut self.term, true).expect("renderer");
+            }
+            Op::LostThenClear(s) => {
+                draw(alpha, g, &mut self.renderer, &surfs[*s as usize]);
+                self.renderer.frame(&mut self.term).expect("frame");
+                self.flush_to_screen(false);
+                self.renderer.clear(&mut self.term).expect("clear");
+                self.flush_to_screen(true);
+            }
+        }
+    }
+
+    /// canonical key: renderer state (H3) + what the screen holds
+    pub fn key(&self, alpha: &Alphabet) -> u128 {
+        let (back, marks, glyphs) = self.renderer.verif_state();
+        let canon_img = |img: &Image| -> (u64, usize) {
+            let p = img.data().as_ptr() as usize;
+            let class = alpha
+                .ptrs
+                .iter()
+                .find(|(_, q)| *q == p)
+                .map(|(k, _)| *k)
+                .or_else(|| glyphs.iter().position(|(_, gi)| gi.data().as_ptr() as usize == p).map(|i| 100 + i))
+                .unwrap_or(999);
+            (img_id(img).hash, class)
+        };
+        let mut cells: Vec<(Face, u32, u64, usize)> = vec![];
+        for c in back.iter() {
+            match c.kind() {
+                CellKind::Char(ch) => cells.push((c.face(), *ch as u32, 0, 0)),
+                CellKind::Image(img) => {
+                    let (h, class) = canon_img(img);
+                    cells.push((c.face(), 0x11_0000, h, class));
+                }
+                CellKind::Glyph(_) => cells.push((c.face(), 0x11_0001, 0, 0)),
+            }
+        }
+        hash128(&(cells, marks, glyphs.len(), &self.screen.cells, &self.screen.placements))
+    }
+}
+
+/// screen obtained by a fresh renderer painting `surf` on a blank terminal
+pub fn from_scratch(alpha: &Alphabet, g: &Grid, surf: &[u8]) -> Screen {
+    let mut e = Exec::new(g);
+    draw(alpha, g, &mut e.renderer, surf);
+    e.renderer.frame(&mut e.term).expect("frame");
+    e.flush_to_screen(true);
+    e.screen
+}
+
+/// direct interpretation of a surface without overlap; None if cells overlap
+pub fn direct(alpha: &Alphabet, g: &Grid, surf: &[u8]) -> Option<Screen> {
+    let mut s = Screen::new(g.h, g.w);
+    let mut covered = vec![false; g.h * g.w];
+    for r in 0..g.h {
+        for c in 0..g.w {
+            let kind = surf[r * g.w + c] as usize;
+            if kind == 0 {
+                continue;
+            }
+            if covered[r * g.w + c] {
+                return None;
+            }
+            let cell = &alpha.cells[kind];
+            if let Some((ah, aw)) = Alphabet::area(kind) {
+                if r + ah > g.h || c + aw > g.w {
+                    return None; // image does not fit: clipping is terminal specific
+                }
+                for rr in r..r + ah {
+                    for cc in c..c + aw {
+                        if covered[rr * g.w + cc] {
+                            return None;
+                        }
+                        covered[rr * g.w + cc] = true;
+                        s.cells[rr * g.w + cc] = SCell {
+                            content: Content::Blank,
+                            face: Face::new(None, cell.face().bg, FaceAttrs::EMPTY),
+                        };
+                    }
+                }
+                if let CellKind::Image(img) = cell.kind() {
+                    s.placements.push((img_id(img), Position::new(r, c)));
+                } else {
+                    // glyph: the image is produced by the renderer; compare only its presence
+                    s.placements.push((crate::model::screen::ImgId { hash: 0, height: 0, width: 0 }, Position::new(r, c)));
+                }
+            } else if let CellKind::Char(ch) = cell.kind() {
+                covered[r * g.w + c] = true;
+                s.cells[r * g.w + c] = SCell {
+                    content: if *ch == ' ' { Content::Blank } else { Content::Char(*ch) },
+                    face: cell.face(),
+                };
+                if Alphabet::is_wide(kind) {
+                    if covered[r * g.w + c + 1] {
+                        return None;
+                    }
+                    covered[r * g.w + c + 1] = true;
+                    s.cells[r * g.w + c + 1] = SCell { content: Content::Tail, face: cell.face() };
+                }
+            }
+        }
+    }
+    // a later cell may sit in an area covered earlier: detect (second pass done above by `covered`)
+    s.placements.sort();
+    Some(s)
+}
+
+fn cell_class(c: &SCell) -> String {
+    let content = match c.content {
+        Content::Blank => "blank",
+        Content::Char(ch) if crate::model::screen::char_width(ch) == 2 => "wide",
+        Content::Char(_) => "char",
+        Content::Tail => "tail",
+        Content::Poison => "poison",
+    };
+    let f = c.face;
+    let mut face = String::new();
+    if f.bg.is_some() {
+        face.push_str("+bg");
+    }
+    if !f.attrs.is_empty() {
+        face.push_str("+attr");
+    }
+    if face.is_empty() {
+        face.push_str("+default");
+    }
+    format!("{content}{face}")
+}
+
+/// first difference as (class, detail)
+fn diff_class(expected: &Screen, actual: &Screen) -> Option<(String, String)> {
+    if expected.placements != actual.placements {
+        let kind = if actual.placements.len() > expected.placements.len() {
+            "stale-image"
+        } else if actual.placements.len() < expected.placements.len() {
+            "missing-image"
+        } else {
+            "wrong-image"
+        };
+        return Some((
+            format!("placements:{kind}"),
+            format!("expected placements {:?}, screen has {:?}", expected.placements, actual.placements),
+        ));
+    }
+    let a = expected.visible();
+    let b = actual.visible();
+    for (i, (x, y)) in a.iter().zip(b.iter()).enumerate() {
+        if x != y || y.content == Content::Poison {
+            return Some((
+                format!("cell:expected-{}:shows-{}", cell_class(x), cell_class(y)),
+                format!(
+                    "cell ({},{}) should show {:?} but shows {:?}",
+                    i / expected.width,
+                    i % expected.width,
+                    x,
+                    y
+                ),
+            ));
+        }
+    }
+    None
+}
+
+fn op_name(op: &Op) -> &'static str {
+    match op {
+        Op::Frame(_) => "F",
+        Op::NoFrame(_) => "N",
+        Op::Clear => "C",
+        Op::Recreate => "R",
+        Op::LostThenClear(_) => "L",
+    }
+}
+
+fn surf_json(g: &Grid, s: &[u8]) -> Value {
+    let rows: Vec<Vec<&str>> = (0..g.h)
+        .map(|r| (0..g.w).map(|c| KIND_NAMES[s[r * g.w + c] as usize]).collect())
+        .collect();
+    json!(rows)
+}
+
+fn history_json(g: &Grid, surfs: &[Vec<u8>], hist: &[Op]) -> Value {
+    let ops: Vec<Value> = hist
+        .iter()
+        .map(|op| match op {
+            Op::Frame(s) => json!({"op": "Frame", "surface": surf_json(g, &surfs[*s as usize])}),
+            Op::NoFrame(s) => json!({"op": "NoFrame", "surface": surf_json(g, &surfs[*s as usize])}),
+            Op::Clear => json!({"op": "Clear"}),
+            Op::Recreate => json!({"op": "Recreate"}),
+            Op::LostThenClear(s) => json!({"op": "LostThenClear", "surface": surf_json(g, &surfs[*s as usize])}),
+        })
+        .collect();
+    json!({"grid": [g.h, g.w], "history": ops})
+}
+
+/// Check the last operation of a history; returns violation (key-suffix, what) if any, and the
+/// state key when the state may be expanded.
+fn step(alpha: &Alphabet, g: &Grid, surfs: &[Vec<u8>], hist: &[Op], with_images: bool) -> (Option<u128>, Vec<(String, String)>) {
+    let mut e = Exec::new(g);
+    let mut problems = vec![];
+    for (i, op) in hist.iter().enumerate() {
+        e.apply(alpha, g, surfs, op);
+        if i + 1 < hist.len() {
+            e.screen.problems.clear();
+        }
+    }
+    let shape: String = hist.iter().map(op_name).collect::<Vec<_>>().join("");
+    let _ = with_images;
+    if !e.screen.problems.is_empty() {
+        let p = e.screen.problems[0].clone();
+        problems.push((format!("{shape}:command:{}", crate::prop::decoder_common::squash(&p)), p));
+    }
+    if let Some(Op::Frame(s)) = hist.last() {
+        let surf = &surfs[*s as usize];
+        let scratch = from_scratch(alpha, g, surf);
+        if let Some((class, detail)) = diff_class(&scratch, &e.screen) {
+            problems.push((
+                format!("{shape}:differs-from-repaint:{class}"),
+                format!("after history {shape} the screen differs from a from-scratch repaint of the last surface: {detail}"),
+            ));
+        }
+        if hist.len() == 1 {
+            // absolute oracle on the from-scratch path
+            if let Some(mut d) = direct(alpha, g, surf) {
+                let mut sc = scratch.clone();
+                // glyph images are produced by the renderer: compare presence and position only
+                for s in [&mut d, &mut sc] {
+                    for p in s.placements.iter_mut() {
+                        let glyph_pos = (0..g.h * g.w).any(|i| surf[i] == 10 && Position::new(i / g.w, i % g.w) == p.1);
+                        if glyph_pos {
+                            p.0 = crate::model::screen::ImgId { hash: 0, height: 0, width: 0 };
+                        }
+                    }
+                    s.placements.sort();
+                }
+                if let Some((class, detail)) = diff_class(&d, &sc) {
+                    problems.push((
+                        format!("F:repaint-differs-from-surface:{class}"),
+                        format!("a from-scratch repaint does not show the surface: {detail}"),
+                    ));
+                }
+            }
+        }
+    }
+    if problems.is_empty() {
+        (Some(e.key(alpha)), problems)
+    } else {
+        (None, problems)
+    }
+}
+
+pub struct GridResult {
+    pub grid: Grid,
+    pub surfaces: usize,
+    pub stats: BfsStats,
+}
+
+fn explore_grid(ctx: &Ctx, alpha: &Alphabet, g: &Grid, depth: usize, lost: bool, viol: &Violations, samples: &Samples, frames: &AtomicU64) -> GridResult {
+    let surfs = surfaces(g);
+    let ns = surfs.len();
+    // op table: Frame(all) ++ NoFrame(subset) ++ Clear ++ Recreate ++ Lost(subset)
+    let subset: Vec<u32> = (0..ns as u32)
+        .filter(|i| {
+            let s = &surfs[*i as usize];
+            let non_default = s.iter().filter(|k| **k != 0).count();
+            non_default == 1 || non_default == s.len()
+        })
+        .take(64)
+        .collect();
+    let mut ops: Vec<Op> = (0..ns as u32).map(Op::Frame).collect();
+    ops.extend(subset.iter().map(|s| Op::NoFrame(*s)));
+    ops.push(Op::Clear);
+    ops.push(Op::Recreate);
+    if lost {
+        ops.extend(subset.iter().map(|s| Op::LostThenClear(*s)));
+    }
+    let with_images = g.kinds.iter().any(|k| *k >= 7);
+    let stats = bfs_with(
+        ctx,
+        depth,
+        |_h| (0..ops.len()).collect(),
+        |h: &[usize]| {
+            let hist: Vec<Op> = h.iter().map(|i| ops[*i].clone()).collect();
+            frames.fetch_add(hist.len() as u64 + 1, Ordering::Relaxed);
+            let res = catch(|| step(alpha, g, &surfs, &hist, with_images));
+            match res {
+                Ok((key, problems)) => {
+                    for (k, what) in problems {
+                        let lost = hist.iter().any(|op| matches!(op, Op::LostThenClear(_)));
+                        let key = if lost && k.ends_with("placements:stale-image") {
+                            // one root cause whatever the grid and the rest of the history
+                            "lost-frame:stale-image".to_string()
+                        } else {
+                            format!("{}x{}:{}", g.h.min(2), if g.w >= 5 { "wide" } else { "narrow" }, k)
+                        };
+                        viol.add(
+                            key,
+                            what,
+                            history_json(g, &surfs, &hist),
+                        );
+                    }
+                    if let Some(k) = key {
+                        samples.offer(k as u64, || history_json(g, &surfs, &hist));
+                    }
+                    key
+                }
+                Err(p) => {
+                    viol.add(
+                        format!("renderer:{}", p.key()),
+                        format!("renderer panicked: {} ({}:{})", p.message, p.file, p.line),
+                        history_json(g, &surfs, &hist),
+                    );
+                    None
+                }
+            }
+        },
+    );
+    GridResult { grid: g.clone(), surfaces: ns, stats }
+}
+
+pub fn grids(tier: Tier) -> Vec<(Grid, usize, bool)> {
+    let all: Vec<usize> = (0..11).collect();
+    let seven: Vec<usize> = vec![0, 1, 3, 4, 6, 7, 8];
+    let nine: Vec<usize> = vec![0, 1, 2, 3, 4, 5, 6, 7, 8];
+    let long: Vec<usize> = vec![0, 3, 4, 6];
+    let g = |h, w, kinds: &Vec<usize>| Grid { h, w, kinds: kinds.clone() };
+    match tier {
+        Tier::Quick => vec![
+            (g(1, 1, &all), 6, true),
+            (g(1, 2, &all), 6, true),
+            (g(1, 3, &all), 6, false),
+            (g(1, 4, &seven), 6, false),
+            (g(2, 2, &seven), 6, false),
+            (g(1, 6, &long), 6, false),
+        ],
+        Tier::Thorough => vec![
+            (g(1, 1, &all), 8, true),
+            (g(1, 2, &all), 8, true),
+            (g(1, 3, &all), 8, true),
+            (g(1, 4, &nine), 8, true),
+            (g(2, 2, &nine), 8, true),
+            (g(2, 3, &vec![0, 1, 3, 6, 8]), 8, false),
+            (g(1, 6, &long), 8, true),
+            (g(1, 7, &long), 8, false),
+        ],
+    }
+}
+
+pub fn run(ctx: &Ctx) -> Result<Report, String> {
+    let alpha = Alphabet::new();
+    let viol = Violations::new();
+    let samples = Samples::new(ctx.seed);
+    let frames = AtomicU64::new(0);
+    let mut per_grid = vec![];
+    let mut states = 0u64;
+    let mut transitions = 0u64;
+    let mut all_fix = true;
+    let mut capped = false;
+    for (g, depth, lost) in grids(ctx.tier) {
+        let r = explore_grid(ctx, &alpha, &g, depth, lost, &viol, &samples, &frames);
+        states += r.stats.states;
+        transitions += r.stats.transitions;
+        all_fix &= r.stats.fixpoint;
+        capped |= r.stats.capped;
+        per_grid.push(json!({
+            "grid": format!("{}x{}", g.h, g.w),
+            "cell_kinds": g.kinds.iter().map(|k| KIND_NAMES[*k]).collect::<Vec<_>>(),
+            "surfaces": r.surfaces,
+            "states": r.stats.states,
+            "transitions": r.stats.transitions,
+            "levels": r.stats.levels,
+            "depth_bound": depth,
+            "fixpoint": r.stats.fixpoint,
+            "lost_frame_ops": lost,
+            "not_expanded_violating_or_capped": r.stats.pruned,
+        }));
+    }
+    let mut r = Report::new("model_checking");
+    r.set("states", states)
+        .set("transitions", transitions)
+        .set("traces_validated_against_impl", transitions)
+        .set("frames_rendered", frames.load(Ordering::Relaxed))
+        .set("grids", per_grid)
+        .set("fixpoint_on_all_grids", all_fix)
+        .set("capped", capped)
+        .set("exhaustive", all_fix && !capped)
+        .set("raw_violations", viol.raw_count())
+        .set("samples", samples.into_vec());
+    r.assume("VT semantics of model/screen.rs (xterm/ECMA-48/kitty): ECH erases with the current background only; overwriting half of a wide character blanks the other half keeping its rendition");
+    r.assume("display width as defined by unicode-width (the library's own definition)");
+    r.assume("grids up to the listed sizes and the 11 cell kinds; every transition is a real TerminalRenderer::frame call");
+    r.violations = viol.into_vec();
+    Ok(r)
+}
+
+pub fn replay(w: &Value) -> Result<(bool, String), String> {
+    let alpha = Alphabet::new();
+    let gh = w["grid"][0].as_u64().ok_or("grid")? as usize;
+    let gw = w["grid"][1].as_u64().ok_or("grid")? as usize;
+    let g = Grid { h: gh, w: gw, kinds: (0..11).collect() };
+    let mut surfs: Vec<Vec<u8>> = vec![];
+    let mut hist: Vec<Op> = vec![];
+    let parse_surface = |v: &Value| -> Result<Vec<u8>, String> {
+        let mut s = vec![];
+        for row in v.as_array().ok_or("surface")? {
+            for cell in row.as_array().ok_or("row")? {
+                let name = cell.as_str().ok_or("cell")?;
+                let k = KIND_NAMES.iter().position(|n| *n == name).ok_or("kind")?;
+                s.push(k as u8);
+            }
+        }
+        if s.len() != gh * gw {
+            return Err("surface size".into());
+        }
+        Ok(s)
+    };
+    for op in w["history"].as_array().ok_or("history")? {
+        let name = op["op"].as_str().ok_or("op")?;
+        let mut surface = || -> Result<u32, String> {
+            surfs.push(parse_surface(&op["surface"])?);
+            Ok(surfs.len() as u32 - 1)
+        };
+        hist.push(match name {
+            "Frame" => Op::Frame(surface()?),
+            "NoFrame" => Op::NoFrame(surface()?),
+            "Clear" => Op::Clear,
+            "Recreate" => Op::Recreate,
+            "LostThenClear" => Op::LostThenClear(surface()?),
+            _ => return Err("unknown op".into()),
+        });
+    }
+    // verbose re-execution
+    let mut detail = String::new();
+    let mut e = Exec::new(&g);
+    for op in &hist {
+        e.apply(&alpha, &g, &surfs, op);
+        detail += &format!("{:?}\n", op);
+    }
+    detail += &format!("screen after history: {:?}\nplacements: {:?}\n", e.screen.visible(), e.screen.placements);
+    if let Some(Op::Frame(s)) = hist.last() {
+        let scratch = from_scratch(&alpha, &g, &surfs[*s as usize]);
+        detail += &format!("from-scratch repaint: {:?}\nplacements: {:?}\n", scratch.visible(), scratch.placements);
+    }
+    let res = catch(|| step(&alpha, &g, &surfs, &hist, true));
+    match res {
+        Ok((_, problems)) => {
+            for (k, what) in &problems {
+                detail += &format!("  {k}: {what}\n");
+            }
+            Ok((!problems.is_empty(), detail))
+        }
+        Err(p) => Ok((true, format!("{detail}panic: {} ({}:{})", p.message, p.file, p.line))),
+    }
 }
